@@ -39,7 +39,7 @@ class C03(Prop):
                   'are decided on every build); model fidelity as far as the correspondence reaches; BytesIO.read = List.take/drop.')
     design_ref = '§5 C03'
     rule = ('(type, framing, F, metadata length, data length, complete flag, request-n): boundary grid around every multiple of the first/next budgets '
-            '(+-4) for F in {64,65,70,127,128,1000} and a dense window 0..W x 0..W at F=64 (W=40 quick, 160 thorough) plus large sizes; each case goes '
+            '(+-4) for F in {64,65,70,127,128,1000} and a dense window 0..W x 0..W at F=64 (W=40 quick, 160 thorough) plus large sizes; each case goes (a quarter of them with the frame made by the library itself: send_payload / request_response / fire_and_forget / request_stream / request_channel on a real endpoint, read off its transport) '
             'fragmenter -> serialize -> parse_or_ignore -> FrameFragmentCache; non-trivial = more than one fragment; distinct = distinct parameter tuple; plus the reconnecting-client scenarios of C01 (a fragmented frame left half-received when the connection goes away, the same stream id used again on the next connection): what is reassembled on the next connection must be exactly what was sent on it')
     assumptions = ['fragments are obtained through Frame.get_next_fragment as the sender does']
 
@@ -55,7 +55,7 @@ class C03(Prop):
                     for md in vals:
                         for d in vals:
                             out.append({'t': tname, 'lp': lp, 'F': F, 'md': md, 'd': d, 'C': (md + d) % 2 == 1, 'n': 1 + (md * 31 + d) % 1000,
-                                        'via': 'sender' if (md * 7 + d) % 4 == 0 else 'direct'})
+                                        'via': 'sender' if (md * 7 + d) % 4 == 0 else ('api' if (md * 7 + d) % 4 == 1 and (md or d) else 'direct')})
         W = 40 if tier == 'quick' else 160
         for tname in TYPES:
             for lp in (False, True):
@@ -66,7 +66,7 @@ class C03(Prop):
             out.append({'t': rng.choice(list(TYPES)), 'lp': rng.random() < 0.5, 'F': rng.choice([64, 64, 100, 1024, 4096, 65536]),
                         'md': rng.choice([0, 0, rng.randint(0, 3000), rng.randint(0, 200000)]),
                         'd': rng.choice([0, rng.randint(0, 3000), rng.randint(0, 400000 if tier == 'thorough' else 60000)]),
-                        'C': rng.random() < 0.5, 'n': rng.choice([1, 2 ** 31 - 1, rng.randint(1, 2 ** 31 - 1)]), 'via': rng.choice(['direct', 'direct', 'sender'])})
+                        'C': rng.random() < 0.5, 'n': rng.choice([1, 2 ** 31 - 1, rng.randint(1, 2 ** 31 - 1)]), 'via': rng.choice(['direct', 'direct', 'sender', 'api'])})
         # reassembly state must not outlive the connection it belongs to: the reconnecting-client scenarios of C01 (a fragmented frame left
         # half-received when the connection goes away, the same stream id used again on the next connection), judged here for "the receiver
         # reassembles exactly the original frame"
@@ -100,7 +100,7 @@ class C03(Prop):
         else:
             base = B.to_request_channel_frame(sid, Payload(d, md), size, case['n'], case['C'])
         frags = []
-        if case.get('via') == 'sender':
+        if case.get('via') in ('sender', 'api'):
             # the fragments as the endpoint's own sender task produces them for a transport with / without the length prefix
             frags = detloop.run(self._through_sender, dict(case, _base=base))
         else:
@@ -146,7 +146,33 @@ class C03(Prop):
         t = simnet.ScriptedTransport(loop, length_header=case['lp'])
         server = RSocketServer(t, fragment_size_bytes=case['F'])
         await loop.settle()
-        server.send_frame(case['_base'])
+        if case.get('via') == 'api':
+            # the frame is made by the library itself, through the entry points its handlers and the application use
+            from rsocket.payload import Payload
+            base = case['_base']
+            pl = Payload(bytes(base.data or b'') or None, bytes(base.metadata or b'') or None)
+
+            class S:
+                def on_subscribe(self, s): pass
+                def on_next(self, v, is_complete=False): pass
+                def on_complete(self): pass
+                def on_error(self, e): pass
+
+            class P:
+                def subscribe(self, subscriber): pass
+            ty = case['t']
+            if ty == 'PAYLOAD':
+                server.send_payload(5, pl, complete=case['C'])
+            elif ty == 'REQUEST_RESPONSE':
+                server.request_response(pl)
+            elif ty == 'REQUEST_FNF':
+                server.fire_and_forget(pl)
+            elif ty == 'REQUEST_STREAM':
+                server.request_stream(pl).initial_request_n(case['n']).subscribe(S())
+            else:
+                server.request_channel(pl, None if case['C'] else P()).initial_request_n(case['n']).subscribe(S())
+        else:
+            server.send_frame(case['_base'])
         await loop.settle()
         out = [e[2] for e in t.sent]
         await server.close()
